@@ -13,16 +13,19 @@ pub const SCALED_SHORT: [i32; 4] = [0, -1, 32768, (1 << 30) - 1];
 /// sentinel for a running rule dimension.
 pub const SCALED_BEYOND: [i32; 5] = [1 << 30, -(1 << 30), i32::MAX, i32::MIN + 1, i32::MIN];
 
-pub const PENALTIES: [i32; 9] = [0, 1, -1, 10000, -10000, 10001, i32::MAX, i32::MIN + 1, i32::MIN];
+pub const PENALTIES: [i32; 11] = [0, 1, -1, 10000, -10000, 10001, -10001, i32::MAX - 1, i32::MAX, i32::MIN + 1, i32::MIN];
 
 /// Characters: ASCII letter, space, the escape character, control characters with and without a short
 /// escape, the characters of the language's own syntax, non-ASCII, a combining mark (printed as \u{..}
 /// by Rust's escape_debug), a non-ASCII white space, the ends of the scalar range. No double quote:
 /// the property excludes it.
-pub const CHARS: [char; 22] = ['a', 'Z', ' ', '\\', '\n', '\t', '\r', '\0', '\u{1}', '\u{7f}', '\'', '#', '(', ']', ',', '=', 'é', '\u{301}', '\u{a0}', '\u{2028}', '\u{d7ff}', '\u{10ffff}'];
-pub const CHARS_SHORT: [char; 5] = ['a', '\\', '\n', 'é', '\u{10ffff}'];
+pub const CHARS: [char; 31] = [
+    'a', 'Z', ' ', '\\', '\n', '\t', '\r', '\0', '\u{1}', '\u{7f}', '\u{80}', '\'', '#', '(', ']', ',', '=', 'é', '\u{301}', '\u{a0}', '\u{2028}', '日', '\u{d7ff}', '\u{e000}', '\u{ffff}', '\u{10000}', '𝄞', '\u{fffff}',
+    '\u{100000}', '\u{10fffe}', '\u{10ffff}',
+];
+pub const CHARS_SHORT: [char; 7] = ['a', '\\', '\n', 'é', '日', '𝄞', '\u{10ffff}'];
 
-pub const FONTS: [u32; 5] = [0, 1, 255, i32::MAX as u32, u32::MAX];
+pub const FONTS: [u32; 7] = [0, 1, 255, 256, i32::MAX as u32, 1 << 31, u32::MAX];
 
 /// Glue ratios as (numerator, denominator) pairs of scaled numbers.
 pub const RATIOS: [(i32, i32); 18] = [
@@ -50,13 +53,13 @@ pub fn span_ok(source: &str, start: usize, end: usize) -> bool {
 }
 
 /// Lexemes of DESIGN §3 C18 (plus the space, so that both `1pt x` and `1ptx` are formed).
-pub const LEXEMES: [&str; 16] = ["chars", "glue", "(", ")", "[", "]", ",", "=", "\"a\"", "\"", "1pt", "1fil", "-", "#c\n", "x", " "];
+pub const LEXEMES: [&str; 18] = ["chars", "glue", "(", ")", "[", "]", ",", "=", "\"a\"", "\"", "1pt", "1fil", "-", "#c\n", "x", " ", "日", "\"é𝄞\""];
 
 /// Pieces of well-formed programs (calls, argument fragments, brackets, comments, white space): most
 /// short concatenations parse, with comments and line breaks in every position `format` has to handle.
-pub const PROGRAM_PIECES: [&str; 20] = [
+pub const PROGRAM_PIECES: [&str; 24] = [
     "chars(\"ab\")", "chars(\"a\", font=1)", "glue(1pt, 2fil, 3pt)", "glue(", "width=1pt", "1pt", ",", ")", "hbox(content=[", "])", "]", "#c\n", "\n", " ", "kern(-.5pt)", "penalty(1,)", "vbox(", "content=[",
-    "disc(pre_break=[", "rule(\"running\"",
+    "disc(pre_break=[", "rule(\"running\"", "chars(\"é日𝄞\")", "#é日𝄞\n", "#c", "\r\n",
 ];
 
 /// Pieces for the inside of a string literal: the escape machine of the lexer.
@@ -65,8 +68,8 @@ pub const STRING_PIECES: [&str; 15] = ["\\", "\"", "u", "{", "}", "\\u{", "F", "
 /// Number lexemes: sign x integer part x fraction x unit.
 pub fn number_lexemes() -> Vec<String> {
     let signs = ["", "-"];
-    let ints = ["", "0", "1", "16383", "16384", "32767", "32768", "2147483647", "2147483648", "4294967296", "99999999999999999999"];
-    let fracs = ["", ".", ".5", ".99999", ".999999999999999999", ".5.5"];
+    let ints = ["", "0", "1", "255", "256", "16383", "16384", "32767", "32768", "2147483646", "2147483647", "2147483648", "2147483649", "4294967295", "4294967296", "99999999999999999999"];
+    let fracs = ["", ".", ".5", ".99998", ".99999", ".999999", ".9999999999999999", ".99999999999999999", ".999999999999999999", ".00000000000000001", ".5.5"];
     let units = ["", "pt", "sp", "in", "em", "fil", "filll", "fillll", "xx", "truept"];
     let mut out = vec![];
     for s in signs {
@@ -104,7 +107,7 @@ pub const FUNCTIONS: [(&str, &[&str]); 13] = [
 ];
 
 /// One value of every type (and some near misses) for the argument-type matrix.
-pub const ARG_VALUES: [&str; 30] = [
-    "", "1", "-1", "256", "1pt", "-0.5pt", "1fil", "2filll", "\"a\"", "\"ab\"", "\"\"", "\"true\"", "\"false\"", "\"running\"", "\"normal\"", "\"fill\"", "\"1.5\"", "\"-0.25\"", "\"16383.99998\"", "\"16384.0\"",
-    "\"20000.0\"", "\"1e5\"", "\"nan\"", "\"before\"", "\"after\"", "[]", "[chars(\"a\")]", "[glue()]", "[penalty(1) kern(1pt)]", "x",
+pub const ARG_VALUES: [&str; 36] = [
+    "", "1", "-1", "255", "256", "1pt", "-0.5pt", "1fil", "2filll", "\"a\"", "\"ab\"", "\"\"", "\"é\"", "\"日本\"", "\"𝄞\"", "\"true\"", "\"false\"", "\"running\"", "\"normal\"", "\"fill\"", "\"1.5\"", "\"-0.25\"", "\"16383.99998\"",
+    "\"16384.0\"", "\"19999.99\"", "\"20000.0\"", "\"20000.01\"", "\"1e5\"", "\"nan\"", "\"before\"", "\"after\"", "[]", "[chars(\"a\")]", "[glue()]", "[penalty(1) kern(1pt)]", "x",
 ];
